@@ -135,7 +135,8 @@ UNIT = Unit("rc4", ["base.rs"], [
        requires=["well_formed(old(self).view())"],
        ensures=[("C16,C15,C01", "prga", "final(self).view() == prga_step(old(self).view()).0 && r == prga_step(old(self).view()).1"), (None, "wf", "well_formed(final(self).view())")]),
     Fn(RC4, "process", impl=r"Rc4", mod="rc4", props=["C16", "C15", "C07"], nloops=1,
-       body_sub=[(r"for \(x, y\) in input\.iter\(\)\.zip\(output\.iter_mut\(\)\) \{\s*\*y = \*x \^ self\.next\(\);\s*\}", "for k in 0..input.len() { output[k] = input[k] ^ self.next(); }")],
+       # (the two pattern variables may have any names; `a ^ b` / `b ^ a` both denote the same byte: the rewrite keeps the source's operand order)
+       body_sub=[(r"for \((\w+), (\w+)\) in input\.iter\(\)\.zip\(output\.iter_mut\(\)\) \{\s*\*\2 = \*\1 \^ self\.next\(\);\s*\}", "for k in 0..input.len() { output[k] = input[k] ^ self.next(); }")],
        requires=["well_formed(old(self).view())", "input@.len() == old(output)@.len()"],
        loops={1: """invariant output@.len() == input@.len(), well_formed(self.view()),
                         self.view() == advance(old(self).view(), k as nat),
